@@ -14,8 +14,9 @@
      tls             src/pe64/tls.rs:89        (data-encoding enabled: raw_data is base64)
      load_config     src/pe64/load_config.rs:71
      security        src/security.rs:84        (certificate_data is base64)
-   NOT modelled: the member "resources" (src/resources/mod.rs serde module) - the model's object
-   has nine members, the implementation's has ten.
+   The tenth member, "resources" (src/resources/mod.rs serde module), is modelled in
+   Model/WrapJsonRes.v (third round): [json_of_image_full] there is the object of all ten members,
+   [json_of_image] below the object of the first nine.
 
    serde / serde_json themselves are outside the model: a `serialize_struct` + `serialize_field`*
    + `end` is the object of its fields in order, `collect_seq` the array of its items,
